@@ -34,7 +34,15 @@ struct Shared {
     failure: Mutex<Option<String>>,
     /// content of the bystander index when the case has one
     stable: Option<Items>,
+    /// staged commits (updates committed without a build: the index must refuse to open until the next
+    /// built commit) begun, and how many of them a completed built commit has covered
+    stage_started: AtomicU64,
+    stage_cleared: AtomicU64,
+    /// version 0 is an empty built index (no sentinel)
+    empty_start: bool,
 }
+
+const NEED_BUILD: &str = "need-build";
 
 /// A built index the writer never touches and, right after it in key order, an index the writer only
 /// stages items into, builds now and then, and clears: what happens there must not show through.
@@ -89,9 +97,16 @@ fn check_snapshot<D: Distance>(
         engine::check_exact::<D>(rtxn, db, &m, &mut qrng, 1, true, c).map_err(|e| format!("bystander index {STABLE}: {e}"))?;
         c.inc("bystander_snapshots");
     }
-    let reader = Reader::<D>::open(rtxn, index, adb::<D>(db)).map_err(|e| format!("Reader::open on a snapshot failed: {e:?}"))?;
-    let sv = reader.item_vector(rtxn, SENTINEL).map_err(|e| format!("{e:?}"))?.ok_or("sentinel item missing from the snapshot")?;
-    let v = decode_sentinel(&sv);
+    let reader = match Reader::<D>::open(rtxn, index, adb::<D>(db)) {
+        Ok(r) => r,
+        Err(arroy::Error::NeedBuild(_)) => return Err(NEED_BUILD.to_string()),
+        Err(e) => return Err(format!("Reader::open on a snapshot failed: {e:?}")),
+    };
+    let v = match reader.item_vector(rtxn, SENTINEL).map_err(|e| format!("{e:?}"))? {
+        Some(sv) => decode_sentinel(&sv),
+        None if sh.empty_start => 0,
+        None => return Err("sentinel item missing from the snapshot".into()),
+    };
     let items = sh.models.lock().unwrap().get(&v).cloned().ok_or_else(|| format!("snapshot shows version {v}, which was never handed to a commit"))?;
     let mut m = IndexModel::new(index, metric, dims);
     m.items = items;
@@ -125,6 +140,7 @@ fn reader_loop<D: Distance>(world: &World, index: u16, metric: Metric, dims: usi
             std::thread::sleep(std::time::Duration::from_micros(rng.gen_range(200..3000)));
         }
         let c0 = sh.committed.load(Ordering::SeqCst);
+        let cleared0 = sh.stage_cleared.load(Ordering::SeqCst);
         let phase = sh.phase.load(Ordering::SeqCst);
         let rtxn = match world.env.read_txn() {
             Ok(t) => t,
@@ -136,8 +152,19 @@ fn reader_loop<D: Distance>(world: &World, index: u16, metric: Metric, dims: usi
         let qseed = rng.gen();
         let r = guarded(|| check_snapshot::<D>(&rtxn, world.db, index, metric, dims, sh, qseed, &mut st.c)).unwrap_or_else(|p| Err(format!("panic while reading a snapshot: {p}")));
         let c1 = sh.commit_started.load(Ordering::SeqCst);
+        let staged1 = sh.stage_started.load(Ordering::SeqCst);
         let (v, answers) = match r {
             Ok(x) => x,
+            Err(e) if e == NEED_BUILD => {
+                // legitimate iff a staged commit can be what this snapshot shows: one that began before the
+                // snapshot was looked at and that no built commit had covered before the snapshot was taken
+                if staged1 > cleared0 {
+                    st.c.inc("snapshots_of_a_staged_state_refused");
+                    continue;
+                }
+                fail(sh, format!("reader (writer phase {phase} at open, committed={c0}): Reader::open says NeedBuild although every staged commit so far ({staged1}) had been covered by a built commit before the snapshot was taken ({cleared0})"));
+                break;
+            }
             Err(e) => {
                 fail(sh, format!("reader (writer phase {phase} at open, committed={c0}): {e}"));
                 break;
@@ -186,6 +213,8 @@ fn writer_loop<D: Distance>(world: &World, index: u16, metric: Metric, dims: usi
     let mut rng = StdRng::seed_from_u64(seed ^ 0xABCD);
     let mut committed_model: Items = sh.models.lock().unwrap().get(&0).cloned().unwrap();
     let mut v = 0u64;
+    let mut staged_pending = false;
+    let mut stagings = 0u64;
     let _ = pool(1);
     // a service keeps one Writer for the life of the index: hidden state in it must follow commits and aborts
     let long_lived = seed & 0x200 != 0;
@@ -227,20 +256,58 @@ fn writer_loop<D: Distance>(world: &World, index: u16, metric: Metric, dims: usi
             }
             c.inc("swap_versions");
         }
+        // a staged commit: the updates are committed without a build (bulk loaders do that); until the next
+        // built commit the index must refuse to open. The first transaction on an empty start is one, and
+        // it loads through append_item.
+        let first_load = sh.empty_start && committed_model.is_empty();
+        let stage = first_load || (!steady && !swap_version && stagings < versions && rng.gen_bool(0.12));
         let n_ops = if swap_version { 0 } else { rng.gen_range(1..30) };
-        for _ in 0..n_ops {
-            let id = rng.gen_range(0..120u32);
-            if rng.gen_bool(0.3) {
+        for k in 0..n_ops {
+            let id = if first_load { k as u32 * 3 } else { rng.gen_range(0..120u32) };
+            if !first_load && rng.gen_bool(0.3) {
                 let _ = w.del_item(&mut wtxn, id);
                 model.remove(&id);
             } else {
                 let vec: Vec<f32> = (0..dims).map(|_| rng.gen_range(-1.0f32..1.0)).collect();
-                w.add_item(&mut wtxn, id, &vec).unwrap();
+                if first_load {
+                    match w.append_item(&mut wtxn, id, &vec) {
+                        Ok(()) => c.inc("staged_appends"),
+                        Err(_) => w.add_item(&mut wtxn, id, &vec).unwrap(),
+                    }
+                } else {
+                    w.add_item(&mut wtxn, id, &vec).unwrap();
+                }
                 model.insert(id, vec);
             }
             if rng.gen_bool(0.1) {
                 nap(&mut rng);
             }
+        }
+        if stage {
+            // make sure the staged state differs from the version before it
+            let id = 200 + (stagings % 50) as u32;
+            let vec: Vec<f32> = (0..dims).map(|_| rng.gen_range(-1.0f32..1.0)).collect();
+            if first_load {
+                w.append_item(&mut wtxn, id, &vec).unwrap_or_else(|_| w.add_item(&mut wtxn, id, &vec).unwrap());
+            } else {
+                w.add_item(&mut wtxn, id, &vec).unwrap();
+            }
+            model.insert(id, vec);
+            stagings += 1;
+            v -= 1;
+            sh.stage_started.fetch_add(1, Ordering::SeqCst);
+            sh.phase.store(3, Ordering::SeqCst);
+            nap(&mut rng);
+            if let Err(e) = wtxn.commit() {
+                fail(sh, format!("staged commit failed: {e:?}"));
+                return;
+            }
+            committed_model = model;
+            staged_pending = true;
+            c.inc("staged_commits");
+            sh.phase.store(0, Ordering::SeqCst);
+            nap(&mut rng);
+            continue;
         }
         if sh.stable.is_some() {
             let nw = Writer::<D>::new(adb::<D>(world.db), NOISE, dims);
@@ -301,6 +368,11 @@ fn writer_loop<D: Distance>(world: &World, index: u16, metric: Metric, dims: usi
                 return;
             }
             sh.committed.store(v, Ordering::SeqCst);
+            if staged_pending {
+                // every staged commit so far is now covered by a built one
+                sh.stage_cleared.store(stagings, Ordering::SeqCst);
+                staged_pending = false;
+            }
             committed_model = model;
             c.inc("versions_committed");
         } else {
@@ -325,9 +397,18 @@ fn writer_loop<D: Distance>(world: &World, index: u16, metric: Metric, dims: usi
 fn run_case<D: Distance>(cs: u64, metric: Metric, dims: usize, index: u16, n_readers: usize, versions: u64, c: &mut Counters, sigs: &mut BTreeSet<u64>) -> Result<(), String> {
     let world = World::new(512 << 20, false);
     let mut rng = StdRng::seed_from_u64(cs);
-    // version 0: an initial built index, committed before any reader starts
+    // version 0: an initial built index, committed before any reader starts; in a quarter of the cases
+    // without a bystander it is an empty built index that is then bulk-loaded
+    let empty_start = cs & 0x400 == 0 && cs & 0x1000 != 0;
     let mut m0: Items = BTreeMap::new();
-    {
+    if empty_start {
+        let mut wtxn = world.env.write_txn().unwrap();
+        let w = Writer::<D>::new(adb::<D>(world.db), index, dims);
+        let mut r = StdRng::seed_from_u64(1);
+        w.builder(&mut r).build(&mut wtxn).map_err(|e| format!("{e:?}"))?;
+        wtxn.commit().unwrap();
+        c.inc("cases_starting_from_an_empty_built_index");
+    } else {
         let mut wtxn = world.env.write_txn().unwrap();
         let w = Writer::<D>::new(adb::<D>(world.db), index, dims);
         for id in 0..50u32 {
@@ -364,6 +445,9 @@ fn run_case<D: Distance>(cs: u64, metric: Metric, dims: usize, index: u16, n_rea
     };
     let sh = Shared {
         stable,
+        stage_started: AtomicU64::new(0),
+        stage_cleared: AtomicU64::new(0),
+        empty_start,
         models: Mutex::new([(0u64, m0)].into_iter().collect()),
         commit_started: AtomicU64::new(0),
         committed: AtomicU64::new(0),
@@ -448,8 +532,8 @@ pub fn run(args: &Args) {
         .set("counters", c.to_json())
         .set("sigs", J::Arr(sigs.iter().map(|s| J::s(format!("{s:x}"))).collect()))
         .set("samples", J::Arr(samples))
-        .set("rule", J::s("case = one environment, one writer thread producing versions (1-30 updates + sentinel + build in a local rayon pool of 1-4 threads with seeded noise at hook points, then commit; or abort after a successful or cancelled build) and 2-6 reader threads opening snapshots at random moments; in half of the cases the environment also holds a bystander index (built once, empty or 6 items, never written again; every snapshot must show it whole) followed in key order by a noise index the writer stages items into, builds and clears inside the same transactions; each snapshot is identified by its sentinel, must lie between the last commit that returned before the open and the last commit started, and is compared as a whole with that version's model (ids, vectors, C01 walker on a raw dump through the same read txn, exact queries), again after holding it across later commits; non-trivial+distinct = distinct (version observed, writer phase at open) pairs"))
-        .set("required", J::Arr(["snapshots", "snapshots_writer_phase_building", "snapshots_writer_phase_committing", "snapshots_held_across_commits", "swap_versions", "bystander_snapshots", "cases_with_empty_bystander", "noise_index_staged", "cases_light_readers", "versions_committed", "aborts_after_successful_build", "aborts_after_cancelled_build", "abort_dumps_compared"].iter().map(|s| J::s(*s)).collect()))
+        .set("rule", J::s("case = one environment, one writer thread producing versions (1-30 updates + sentinel + build in a local rayon pool of 1-4 threads with seeded noise at hook points, then commit; or abort after a successful or cancelled build; or a staged commit without a build, after which the index must refuse to open until the next built commit — a reader may get NeedBuild only while such a commit can be what its snapshot shows; a quarter of the cases without bystander start from an empty built index that is bulk-loaded through append_item in a staged commit) and 2-6 reader threads opening snapshots at random moments; in half of the cases the environment also holds a bystander index (built once, empty or 6 items, never written again; every snapshot must show it whole) followed in key order by a noise index the writer stages items into, builds and clears inside the same transactions; each snapshot is identified by its sentinel, must lie between the last commit that returned before the open and the last commit started, and is compared as a whole with that version's model (ids, vectors, C01 walker on a raw dump through the same read txn, exact queries), again after holding it across later commits; non-trivial+distinct = distinct (version observed, writer phase at open) pairs"))
+        .set("required", J::Arr(["snapshots", "snapshots_writer_phase_building", "snapshots_writer_phase_committing", "snapshots_held_across_commits", "swap_versions", "staged_commits", "staged_appends", "snapshots_of_a_staged_state_refused", "bystander_snapshots", "cases_with_empty_bystander", "noise_index_staged", "cases_light_readers", "versions_committed", "aborts_after_successful_build", "aborts_after_cancelled_build", "abort_dumps_compared"].iter().map(|s| J::s(*s)).collect()))
         .set("wall_s", J::Num(t0.elapsed().as_secs_f64()));
     emit("SUMMARY", &j);
 }
